@@ -5,24 +5,24 @@ HERE = os.path.dirname(os.path.dirname(os.path.abspath(__file__)))
 
 # id -> (engine, category, technique, text, note)
 CHECKS = {
- "C18": ("proptest grammar generators + refmodel (JSON-RPC outcome + 6-field config model)", "exploration",
+ "C18": ("proptest grammar generators + refmodel (JSON-RPC outcome + 6-field config model) + real control_socket::spawn over a Unix socket + E6 + libFuzzer c18_control (thorough)", "exploration",
          "property-based testing: grammar-generated and byte-mutated lines and line histories against an independent JSON-RPC reference model; differential between the stdin and socket entry points; thread stress in the thorough tier",
-         "For every generated line (requests from a grammar over methods x params x ids x versions, JSON of any shape, arbitrary bytes, truncated/mutated requests) dispatch returns without panic, any response is one well-formed JSON-RPC 2.0 object, requests with an id get exactly one response echoing the id with the predicted result or error code (-32700/-32600/-32601/-32602), notifications get none and are still applied; in histories the snapshot and the next get_status always show the model, the timeout stays clamped to 1000..60000 and is echoed as applied; dispatch() and dispatch_async() (with and without a subscription context) answer identically and leave equal configurations.",
+         "For every generated line (requests from a grammar over methods x params x ids x versions, JSON of any shape, arbitrary bytes, truncated/mutated requests) dispatch returns without panic, any response is one well-formed JSON-RPC 2.0 object, requests with an id get exactly one response echoing the id with the predicted result or error code (-32700/-32600/-32601/-32602), notifications get none and are still applied; in histories the snapshot and the next get_status always show the model, the timeout stays clamped to 1000..60000 and is echoed as applied; dispatch() and dispatch_async() (with and without a subscription context) answer identically and leave equal configurations. Socket tier (quick and thorough): the real control_socket::spawn serves generated line sequences (requests, notifications, garbage, multibyte strings, several per write, split writes) on a Unix socket; the responses must equal those of dispatch() on the same lines, one per request, in order. Thorough adds the control socket of a running sender (E6) with config changes observed on the wire.",
          "Left open on purpose: JSON that is not a request object, missing/non-string jsonrpc or method, id null, duplicate keys, numbers too large for the JSON library, subscription methods. Concurrency is a 4-thread stress (thorough), not schedule enumeration.",
          "5/C18"),
  "C19": ("proptest text grammar + E3 shellsim (real apply_connection_changes)", "exploration",
          "property-based testing: generated file contents against an independent line splitter + IpAddr::from_str; generated reload sequences on a live shell with survivor/removed/added relations over a full state projection",
-         "Refuse iff no parsable line (and for a missing file), else exactly the parsable lines in order; applying a list keeps every still-listed link with identity, socket object, local port and full state projection (incl. guard state and queue contents) unchanged, removes exactly the unlisted links together with their I/O handle and every attribution record the ownership model says they owned, adds each new address exactly once with an I/O entry, forgets the routing choice when a link was removed; refused reloads change nothing.",
+         "Refuse iff no parsable line (and for a missing file), else exactly the parsable lines in order; applying a list keeps every still-listed link with identity, socket object, local port and full state projection (incl. guard state and queue contents) unchanged, removes exactly the unlisted links together with their I/O handle and every attribution record the ownership model says they owned, adds each new address exactly once with an I/O entry, forgets the routing choice when a link was removed; refused reloads change nothing. Thorough adds SIGHUP reloads on the real running sender (E6): survivors keep their source port and registration, removed addresses stop sending, refused files change nothing.",
          "IPv4 loopback aliases only in the apply tier. Order/phase of added links and first_invalid_line not asserted. Held on what was explored.",
          "5/C19"),
  "C20": ("E5: hub futures polled by hand over generated operation interleavings; real-thread tier (thorough)", "exploration",
          "stateful property testing over generated interleavings with hand-polled futures (a blocking publish is a pending future); OS-thread stress for lock contention",
-         "A publish completes within 3 polls while nothing else runs whatever the state of the subscribers' channels (capacity 1..128, full, closed, never drained); every pushed line is a notification with method <topic>.update of the subscription's own topic and its own id, on its own connection; ids never repeat; per subscription each publisher's event numbers are strictly increasing; nothing published after an unsubscribe completed is delivered; closed receivers that met a publish are no longer counted and live ones are. Thorough: publisher threads finish while three subscribers never drain, observer sees per-publisher order, pruning count exact.",
+         "A publish completes within 3 polls while nothing else runs whatever the state of the subscribers' channels (capacity 1..128, full, closed with and without draining, never drained); every pushed line is a notification with method <topic>.update of the subscription's own topic and its own id, on its own connection; ids never repeat; per subscription each publisher's event numbers are strictly increasing; nothing published after an unsubscribe completed is delivered; closed receivers that met a publish are no longer counted and live ones are. Thorough: publisher threads finish while three subscribers never drain, observer sees per-publisher order, pruning count exact; a subscription made over the real control socket of a running sender receives well-formed updates and stops receiving them after unsubscribe (E6).",
          "On one thread no task suspends while holding the hub lock, so interleavings are of whole operations; true parallel interleavings are only sampled (thorough). Delivery itself is not promised, delivered events are counted.",
          "5/C20"),
- "C01": ("E3 shellsim (real handle_srt_packet / handle_uplink_packet / flush_all_batches / handle_housekeeping over loopback, virtual clock)", "exploration",
+ "C01": ("E3 shellsim (real handle_srt_packet / handle_uplink_packet / flush_all_batches / handle_housekeeping over loopback, virtual clock) + short-send tier (AF_UNIX datagram uplinks with tiny buffers) + E6 real run_sender_with_config (thorough)", "exploration",
          "stateful property testing with a wire-log monitor: generated event-loop interleavings and faults; per-link queue equation wire ++ queue_after == queue_before ++ routed after every step",
-         "For generated interleavings of the event loop's arms (client datagrams of every kind, length 1..1500 and sequence number incl. repeats; real uplink packets; flush ticks; housekeeping; clock steps; all batch regimes; send failures via EPIPE; re-registration) on 1..4 uplinks in both modes with the guard on/off: nothing is invented, corrupted, reordered per link or duplicated except counted probe copies on stall-gated links (<= ceil(n/100)); queue depth <= 32 after every step and 0 after a flush tick; a datagram leaves a queue without reaching the wire only on a link that failed or re-registered in that step; a datagram is refused only when no uplink is usable.",
+         "For generated interleavings of the event loop's arms (client datagrams of every kind, length 1..1500 and sequence number incl. repeats; real uplink packets; flush ticks; housekeeping; clock steps; all batch regimes; send failures via EPIPE; re-registration) on 1..4 uplinks in both modes with the guard on/off: nothing is invented, corrupted, reordered per link or duplicated except counted probe copies on stall-gated links (<= ceil(n/100)); queue depth <= 32 after every step and 0 after a flush tick; a datagram leaves a queue without reaching the wire only on a link that failed or re-registered in that step; a datagram is refused only when no uplink is usable. Short-send tier: the uplink socket is replaced by a tiny-buffer datagram pair so that sendmmsg accepts only a prefix of a batch; the accepted prefix must reach the wire once, in order, and the rest follows the failure rule. Thorough adds a real-time run of the real sender against the cooperative receiver comparing the multiset received on all uplinks with the multiset the client sent.",
          "Loopback only (no kernel reordering/loss); client datagrams never carry SRTLA type bytes; pre-registration forwarding is outside the statement. Held on what was explored.",
          "5/C01"),
  "C07": ("E1 (real SrtlaRegistrationManager in the shell's call order) + E3 shellsim tier", "exploration",
@@ -32,17 +32,17 @@ CHECKS = {
          "5/C07"),
  "C08": ("E3 shellsim + cooperative receiver model + generated fault schedules", "fault_enumeration",
          "fault-injection property testing: generated per-link fault schedules on a simulated clock against the real shell; teardown-cause, retry-spacing, bounded-recovery and clean-rejoin monitors",
-         "Over generated schedules of black-holes, one-way loss, lost handshake replies, receiver amnesia (REG_NGP / REG_ERR) and socket send errors on 2..4 links, every timeout setting and both modes: an established link is torn down only after silence >= its timeout, an injected send failure or a REG_ERR; reconnect attempts happen only in housekeeping, >= 1 s apart before the first REG3 and >= 5 s after, and keep coming while the link is down; once faults are over and the receiver holds the adopted id the link is connected within 30 s; a rejoining link has window 20000, zero in-flight, empty queue, warming phase; survivors never drop a datagram while usable.",
+         "Over generated schedules of black-holes, one-way loss, lost handshake replies, receiver amnesia (REG_NGP / REG_ERR) and socket send errors on 2..4 links, every timeout setting and both modes: an established link is torn down only after silence >= its timeout, an injected send failure or a REG_ERR; reconnect attempts happen only in housekeeping, >= 1 s apart before the first REG3 and >= 5 s after, and keep coming while the link is down; once faults are over and the receiver holds the adopted id the link is connected within 30 s; a rejoining link has window 20000, zero in-flight, empty queue, warming phase; survivors never drop a datagram while usable; a receiver-side monitor (members expire after 10 s of silence, as in srtla_rec) flags a link the sender still calls connected long after the receiver forgot it (failure never detected). Strategies include long outages beyond the receiver expiry and flapping links.",
          "Liveness clauses are bounded safety over a 70 s (quick) / 400 s (thorough) simulated horizon. Receiver model written from the protocol docs. Link 0 is always fault-free; an all-links-down run ends where production exits (10 s).",
          "5/C08"),
- "C09": ("E3 shellsim (real handle_uplink_packet) + reference classification", "exploration",
+ "C09": ("E3 shellsim (real handle_uplink_packet + real drain_packet_queue backlog tier) + reference classification + E6 real reader tasks (thorough) + libFuzzer c09_uplink (thorough)", "exploration",
          "property-based testing with structure-aware generated datagrams on generated link states; oracle = reference classification by type, relay byte-equality, liveness and delivery-proof model",
-         "Every generated datagram (all type codes reachable, SRTLA/SRT types over-weighted, lengths around every parser guard up to 1500, SRTLA ACKs naming held seqs, keepalive echoes in every mutation) arriving on links in generated states: internal types never reach the client, everything else of >= 2 bytes reaches it byte-identically at least once and nothing else does (nothing before a client is known); non-registration datagrams refresh liveness; delivery proof moves only for an earned SRTLA ACK (arrival link first) or an echo answered while waiting with 0 < RTT <= 10 s; no panic.",
+         "Every generated datagram (all type codes reachable, SRTLA/SRT types over-weighted, lengths around every parser guard up to 1500, SRTLA ACKs naming held seqs, keepalive echoes in every mutation) arriving on links in generated states: internal types never reach the client, everything else of >= 2 bytes reaches it byte-identically at least once and nothing else does (nothing before a client is known); non-registration datagrams refresh liveness; delivery proof moves only for an earned SRTLA ACK (arrival link first) or an echo answered while waiting with 0 < RTT <= 10 s; no panic. Backlog tier: bursts of up to 600 datagrams are queued on the real uplink channel and drained by the real drain_packet_queue in generated budgets; every relayable datagram reaches the client exactly once and in per-link order, none is left behind. Thorough adds the real per-uplink reader tasks of run_sender_with_config in real time.",
          "Reference classification by the first two bytes. Held on what was explored; a libFuzzer target extends the byte-level search in the thorough tier when built.",
          "5/C09"),
  "C14": ("E3 shellsim (real handle_housekeeping + handle_uplink_packet) + E1 RTT tracker streams", "exploration",
          "stateful property testing: generated timed histories of housekeeping ticks and echo policies; keepalive frames decoded with the reference decoder against a pre-tick snapshot",
-         "Keepalive gap on a live link <= 2 x the largest tick spacing; every keepalive is 38 bytes = 0x9000, be64(tick time), magic, version, and window / in-flight / loss count / rate (and id) equal to the pre-tick link state; an echo yields an RTT sample iff a probe was outstanding, the frame has >= 10 bytes and 0 < now - ts <= 10 s; smoothed RTT finite and >= 0 after every op and for arbitrary sample streams 1..10000 ms.",
+         "Keepalive gap on a live link <= 2 x the largest tick spacing; every keepalive is 38 bytes = 0x9000, be64(tick time), magic, version, and window / in-flight / loss count / rate (and id) equal to the pre-tick link state; an echo yields an RTT sample iff a probe was outstanding, the frame has >= 10 bytes and 0 < now - ts <= 10 s; smoothed RTT finite and >= 0 after every op and for arbitrary sample streams 1..10000 ms; after a link reset (timeout, REG_ERR, re-registration) no echo yields a sample until a new keepalive has been sent on that link. Thorough adds real-time keepalive cadence and content on the real sender (E6).",
          "Establishment counts as tick 0. 'Live' uses the timeout the link itself holds. Held on what was explored.",
          "5/C14"),
  "C10": ("E3 shellsim closed loop (classic mode, guard off) + refmodel::classic", "exploration",
@@ -60,9 +60,9 @@ CHECKS = {
          "On every select of generated link-state histories (phases, receive age at the timeout edges, in-flight around thresholds, proof age, latch/pull history, weak/loss-degraded, CC target vs bitrate, quality history, every config setting, both modes) a link is returned whenever an independently computed usable link exists; the shell tier repeats the predicate on real handle_srt_packet decisions (datagram must be queued somewhere) with link states produced by real uplink packets, housekeeping and clock steps.",
          "Link states are reachable by construction (production calls + fields the shell writes). Gate-combination histogram is in the evidence. Held on what was explored.",
          "5/C03"),
- "C04": ("E3 shellsim decision tier (real handle_srt_packet over loopback)", "exploration",
+ "C04": ("E3 shellsim decision tier (real handle_srt_packet over loopback) + fault-history tier (faultsim schedules)", "exploration",
          "property-based testing with an eligibility predicate evaluated on the link that actually received the unique copy (read off queues and the wire) after generated real-packet histories",
-         "For every client datagram (data, retransmit-flagged, control; critical window open/closed; both modes; quality on/off) pushed through the real handle_srt_packet after a generated history of real uplink packets, housekeeping, clock steps and config changes, the link holding the unique copy is registered since its last reset, heard within the timeout and not stall-gated in that call; extra copies only on stall-gated connected links and never for control packets.",
+         "For every client datagram (data, retransmit-flagged, control; critical window open/closed; both modes; quality on/off) pushed through the real handle_srt_packet after a generated history of real uplink packets, housekeeping, clock steps and config changes, the link holding the unique copy is registered since its last reset, heard within the timeout and not stall-gated in that call; extra copies only on stall-gated connected links and never for control packets. Wire clause: no stream datagram that was accepted after the first establishment leaves on a link that is not registered at that moment. Fault-history tier: the same predicate on every datagram of the C08 fault schedules (black-holes, REG_ERR / REG_NGP amnesia, send errors, flapping).",
          "Eligibility uses the three clauses of the statement (+ connected). Held on what was explored.",
          "5/C04"),
  "C12": ("E2 selstate with a guard-always-off twin", "exploration",
@@ -142,7 +142,9 @@ def main():
         },
         "engines": [
             {"name": "vcheck", "path": "/verif/harness", "serves_properties": sorted(CHECKS.keys()),
-             "kind_free_text": "Rust binary: proptest TestRunner with fixed seeds, stateful histories as Vec<Op> + interpreter, enumerators for finite sub-spaces, independent reference models, known-findings matcher, evidence writer"},
+             "kind_free_text": "Rust binary: proptest TestRunner with fixed seeds, stateful histories as Vec<Op> + interpreter, enumerators for finite sub-spaces, independent reference models, known-findings matcher, evidence writer. Engines inside it: E1 core (sans-IO), E2 selstate (scheduler link states), E3 shellsim (the harness is the event loop around the real handlers, loopback sockets, virtual clock), E5 hand-polled hub futures, E6 e2e (real run_sender_with_config in real time against a cooperative receiver; thorough only; a failure must reproduce on an identical second run)"},
+            {"name": "libfuzzer-targets", "path": "/verif/harness/fuzz", "serves_properties": ["C09", "C15", "C18"],
+             "kind_free_text": "cargo-fuzz crate (libFuzzer, nightly): c15_codec, c09_uplink, c18_control; the semantic oracle is inside each target (fuzz_entry.rs); run by the thorough tier for a fixed wall-clock budget (VERIF_FUZZ_SECS), artifacts become replay files; a target that cannot be built is recorded as skipped, never as a violation"},
         ],
         "checks": checks,
         "notes": "All checks: ./check <ID> --tier quick|thorough. Exit 0 held, 1 violation (VIOLATION line + replay file under /verif/replays/<ID>/), 2 infrastructure. VERIF_SEED selects the PRNG seed (default 1).",
